@@ -1,4 +1,79 @@
-import Sparrow.Model.Lifecycle
+import Sparrow.Proofs.LifeLemmas
+import Sparrow.Generated.Lifecycle
+/-
+  C15 — Saving and restoring a simulation at any stage is lossless.
+
+  Life-cycle model: `Sparrow/Model/Lifecycle.lean` (terms: which kernel produced an attribute
+  from which inputs).  `Generated/Lifecycle.lean` is re-extracted from the class on every run.
+-/
 namespace Sparrow.Props.C15
-theorem placeholder : True := trivial
+open Sparrow.Life Sparrow.Generated
+
+/-- The serialisation round trip covers the constructor: `to_dict` lists exactly the
+    constructor's parameters, each taken from the attribute of the same name; `None` is encoded
+    and decoded on both paths; `__eq__` compares the `to_dict` images. -/
+theorem roundtrip_covers_constructor :
+    toDictKeys.map (·.1) = initParams ∧ (toDictKeys.all fun p => p.2 == "_" ++ p.1) = true ∧
+    toDictEncodesNone = true ∧ toDictEncodesArrays = true ∧ fromDictDecodesNone = true ∧
+    fromReadDecodesNone = true ∧ eqComparesToDict = true := by decide
+
+/-- Every attribute that a pipeline method reads is serialised — except `_source`. -/
+theorem serialized_covers_reads_partial :
+    ((["set_wall_brdf", "set_air_attenuation", "bake_geometry", "init_source_energy",
+        "calculate_energy_exchange", "collect_energy_receiver_patchwise", "collect_energy_receiver_mono",
+        "calculate_direct_sound"].flatMap reads).filter
+      fun a => !((toDictKeys.map (·.2)).contains a)).eraseDups = ["_source"] := by decide
+
+/-- … and `_source` is read only on the direct-sound path. -/
+theorem source_read_only_by_direct_sound :
+    (["set_wall_brdf", "set_air_attenuation", "bake_geometry", "init_source_energy",
+      "calculate_energy_exchange", "collect_energy_receiver_patchwise"].all
+        fun m => !((reads m).contains "_source")) = true := by decide
+
+/-
+  FULL STATEMENT: for every reachable state `s` and every continuation `ops`,
+  `run (saveRestore s) ops = run s ops` and every observation (collection and direct sound) is
+  identical.  FALSE at the pinned commit for the direct sound (known finding D8: `_source` is
+  not serialised): `direct_sound_lost_on_restore` is the kernel-checked witness, replayed on the
+  implementation by the check.  Proved: everything else.
+-/
+
+/-- Whatever follows a save/restore — setting materials again, baking, initialising sources,
+    exchanging, further save/restores — the restored object and the original differ at most in
+    the unsaved `_source`. -/
+theorem restored_continues_partial (s : St) (ops : List Op) :
+    agreeModSource (run s ops) (run (saveRestore s) ops) :=
+  restored_continues s ops
+
+/-- Not even there once a source has been initialised after the restore. -/
+theorem restored_identical_after_init (s : St) (ops : List Op) (h : ∃ src, Op.init src ∈ ops) :
+    run s ops = run (saveRestore s) ops :=
+  restored_continues_after_init s ops h
+
+/-- Receiver collection (patch-wise and mono without direct sound) is identical in any case. -/
+theorem restored_collect_identical (s : St) (ops : List Op) (recv : String) :
+    obsCollect (run s ops) recv = obsCollect (run (saveRestore s) ops) recv :=
+  restored_collect_same s ops recv
+
+/-- D8 witness: the direct sound is available on the original and not on the restored object. -/
+theorem direct_sound_lost_on_restore :
+    ∃ (s : St) (recv : String), (obsDirect s recv).isSome = true ∧ (obsDirect (saveRestore s) recv).isSome = false :=
+  Sparrow.Life.direct_sound_lost_on_restore
+
+/-- … and identical again after the next source initialisation. -/
+theorem direct_sound_after_reinit (s : St) (ops : List Op) (recv : String) (h : ∃ src, Op.init src ∈ ops) :
+    obsDirect (run s ops) recv = obsDirect (run (saveRestore s) ops) recv :=
+  Sparrow.Life.direct_sound_after_reinit s ops recv h
+
+/-- The model's write footprint per operation is the one extracted from the source. -/
+theorem write_footprints_as_modelled :
+    writes "set_wall_brdf" = ["_brdf", "_brdf_incoming_directions", "_brdf_index", "_brdf_outgoing_directions", "_frequencies"] ∧
+    writes "set_air_attenuation" = ["_air_attenuation", "_frequencies"] ∧
+    writes "bake_geometry" = ["_form_factors", "_form_factors_tilde", "_patch_2_brdf_outgoing_index", "_visibility_matrix", "_visible_patches"] ∧
+    writes "init_source_energy" = ["_air_attenuation", "_brdf", "_brdf_incoming_directions", "_brdf_index", "_brdf_outgoing_directions",
+      "_distance_patches_to_source", "_energy_init_source", "_frequencies", "_source", "_source_visibility"] ∧
+    writes "calculate_energy_exchange" = ["_energy_exchange_etc", "_etc_duration", "_etc_time_resolution", "_speed_of_sound"] ∧
+    writes "collect_energy_receiver_mono" = [] ∧ writes "collect_energy_receiver_patchwise" = [] ∧
+    writes "calculate_direct_sound" = [] ∧ writes "to_dict" = [] ∧ writes "__eq__" = [] ∧ writes "check" = [] := by decide
+
 end Sparrow.Props.C15
